@@ -163,6 +163,27 @@ abbrev Data := List (Bytes × DV)
 def dataSet (d : Option Data) (k : Bytes) (v : DV) : Option Data :=
   some ((k, v) :: ((d.getD []).filter (fun x => x.1 != k)))
 
+/-- what a gate middleware does to the context (pkg/handlers) -/
+inductive GEv
+  | header (k v : Bytes)
+  | abort (code : Int)
+  | set (k v : Bytes)
+  deriving DecidableEq, Repr
+
+/-- Go map lookup `v, ok := m[k]` on an association list (first binding) -/
+def mapGet (m : List (Bytes × Bytes)) (k : Bytes) : Bytes × Bool :=
+  match m.find? (fun x => x.1 == k) with
+  | some x => (x.2, true)
+  | none => ([], false)
+
+/-- the request as the method-override handler sees it: method, the `_method`/other form values (`FormValue`),
+    the headers (`Header.Get`), and the original method recorded in the request context -/
+structure OReq where
+  method : Bytes
+  formValue : Bytes → Bytes
+  header : Bytes → Bytes
+  original : Option Bytes := none
+
 /-- what `Router.QuickMatch` calls, over an abstract router state `σ` (the route cache may change when a
     dynamic route is matched), abstract routes `ρ` and parameter maps `π` -/
 structure QMEnv (σ ρ π : Type) where
